@@ -98,12 +98,12 @@ def main(mode):
         for key in (None, b"secret"):
             for name in ("http.obj", "http.obj2", "other.obj", "xhttp.obj", "HTTP.obj", "http", "nosuch", "http.nosuch"):
                 for member in ("ping", "echo", "fail", "fire", "attr", "$meta", "_pyroRelease", "_pyroBind", "__class__", "nosuch"):
-                    for keyhow in ("none", "header-right", "header-wrong", "param-right", "param-wrong", "param-twice", "both-wrong-right"):
+                    for keyhow in ("none", "header-right", "header-wrong", "param-right", "param-wrong", "param-twice", "both-wrong-right", "both-right", "header-right-param-wrong"):
                         if key is None and keyhow not in ("none", "param-right"):
                             continue
                         cases.append((key, name, member, keyhow))
         if mode != "thorough":
-            cases = cases[::3] + [c for c in cases if c[3] in ("param-twice",)][:20]
+            cases = cases[::3] + [c for c in cases if c[3] in ("param-twice",)][:20] + [c for c in cases if c[3] in ("both-right", "header-right-param-wrong") and c[1] == "http.obj"]
         for key, name, member, keyhow in cases:
             runs += 1
             gw.pyro_app.gateway_key = key
@@ -122,6 +122,12 @@ def main(mode):
             elif keyhow == "both-wrong-right":
                 headers["HTTP_X_PYRO_GATEWAY_KEY"] = "wrong"
                 q.append(("$key", "secret"))
+            elif keyhow == "both-right":
+                headers["HTTP_X_PYRO_GATEWAY_KEY"] = "secret"
+                q.append(("$key", "secret"))
+            elif keyhow == "header-right-param-wrong":
+                headers["HTTP_X_PYRO_GATEWAY_KEY"] = "secret"
+                q.append(("$key", "wrong"))
             del CALLS[:]
             del LOOKUPS[:]
             desc = {"gateway_key": None if key is None else "secret", "object": name, "member": member, "key_presented": keyhow}
@@ -131,7 +137,7 @@ def main(mode):
                 fail = fail or dict(desc, violated="the WSGI app raised %r instead of answering" % (x,))
                 continue
             time.sleep(0.02 if member == "fire" else 0)
-            key_ok = key is None or keyhow in ("header-right", "param-right")
+            key_ok = key is None or keyhow in ("header-right", "param-right", "both-right", "header-right-param-wrong")
             pat_ok = name.startswith("http.")
             authorised = key_ok and pat_ok and not member.startswith("_")
             if not authorised:
